@@ -20,13 +20,16 @@ pub struct EnvCase {
     pub funds: Vec<(String, u128)>,
     pub nonce: u64,
     pub fail: bool,
+    /// what a mutating echo handler returns (sub-messages of every non-custom kind with id /
+    /// gas limit / reply trigger / payload, attributes, events, data); None = a bare response
+    pub resp: Option<crate::echo::RespSpec>,
 }
 
 impl EnvCase {
     pub fn json(&self) -> Value {
         json!({"height": self.height, "nanos": self.nanos, "chain": self.chain, "contract": self.contract,
                "tx": self.tx, "sender": self.sender, "funds": self.funds.iter().map(|(d, a)| json!([d, a.to_string()])).collect::<Vec<_>>(),
-               "nonce": self.nonce, "fail": self.fail})
+               "nonce": self.nonce, "fail": self.fail, "resp": self.resp})
     }
     pub fn harness(&self) -> Harness {
         let mut h = Harness::new(self.nonce);
@@ -36,6 +39,7 @@ impl EnvCase {
             self.funds.iter().map(|(d, a)| Coin { denom: d.clone(), amount: Uint128::new(*a) }).collect(),
         );
         h.set_fail(self.fail);
+        h.set_spec(self.resp.as_ref());
         h
     }
 }
@@ -59,6 +63,7 @@ impl Case for EnvCase {
                 .collect::<Option<Vec<_>>>()?,
             nonce: v["nonce"].as_u64()?,
             fail: v["fail"].as_bool()?,
+            resp: serde_json::from_value(v["resp"].clone()).ok().flatten(),
         })
     }
 }
@@ -88,6 +93,17 @@ pub fn env_strategy() -> BoxedStrategy<EnvCase> {
             funds,
             nonce,
             fail,
+            resp: None,
+        })
+        .boxed()
+}
+
+/// `env_strategy` plus a generated response for the handler to return ("response untouched").
+pub fn env_strategy_with_resp() -> BoxedStrategy<EnvCase> {
+    (env_strategy(), proptest::option::weighted(0.6, super::rt::resp_spec_strategy_plain()))
+        .prop_map(|(mut e, r)| {
+            e.resp = r;
+            e
         })
         .boxed()
 }
@@ -186,9 +202,14 @@ pub fn run(p: &Prog, cfg: &Cfg, rep: &mut Report) {
             cfg,
             &p.model.id,
             &h.id,
-            (args_strategy(&h.conc), env_strategy()).boxed(),
+            (args_strategy(&h.conc), env_strategy_with_resp()).boxed(),
             rep,
             |(args, case), tally| {
+                if let Some(r) = &case.resp {
+                    if h.kind != Kind::Query {
+                        tally.class(if r.msgs.is_empty() { "response:no-sub-messages" } else { "response:with-sub-messages" });
+                    }
+                }
                 tally.class(&format!("kind:{}", h.kind.attr()));
                 tally.class(if h.part == 0 { "part:contract" } else { "part:interface" });
                 if same_typed {
